@@ -344,6 +344,11 @@ async def run_sequential(hist: dict, loop, rng) -> dict:
                         spec["next"] = rng.choice([-5, 0, 400_000, 1_300_000, 3 * S])
                     if rng.random() < 0.3:
                         spec["ttl"] = rng.choice([300_000, 10 * S])
+                    if rng.random() < 0.3:
+                        # a recurring job that is being retried: a period AND an explicit retry time, which must win
+                        spec["by"] = rng.choice([1 * S, 5 * S])
+                        spec["ts"] = rng.choice([0, -300_000])
+                        spec["next"] = rng.choice([400_000, 1_300_000, 4 * S])
                     o.update(params=spec, rev=rng.randint(1, 9))
             if kind == "put":
                 p = build_params(o["params"], now)
